@@ -20,7 +20,11 @@ Dec(e, ty) == [ty |-> ty, owned |-> TRUE, addr |-> e.addr]
 Encode == /\ stage = "handle" /\ enc' = Enc(h) /\ stage' = "encoded" /\ UNCHANGED <<h, back>>
 Decode(ty) == /\ stage = "encoded" /\ back' = Dec(enc, ty) /\ stage' = "decoded" /\ UNCHANGED <<h, enc>>
 
+(* a document with further members next to `addr`: whether it is accepted is not prescribed; when it is, the handle is a handle *)
+(* to that address like any other -- nothing of the document it came from stays with it                                       *)
+DecLoose(e, ty, more) == Dec(e, ty)
 (* C20 *)
+C20_DecodedHandleEncodesAlike == stage = "decoded" => Enc(back) = Enc(h) /\ \A more \in {{}, {"code_id", "label"}} : Enc(DecLoose(enc, back.ty, more)) = Enc(h)
 C20_SingleMemberAddr == stage # "handle" => DOMAIN enc = {"addr"} /\ enc.addr = h.addr
 C20_DecodesToSameAddress == stage = "decoded" => back.addr = h.addr
 (* type independence: any two handles to the same address have the same encoding *)
